@@ -297,7 +297,10 @@ Inductive op :=
 | ODescPipe
 | ODescHTTP
 | OHash                       (* Server.ProtocolHash() *)
-| OCall (name : bytes).       (* a request for method [name] over the pipe *)
+| OCall (name : bytes)        (* a request for method [name] over the pipe *)
+| OHttpSet (k v : bytes).     (* a setter of the HttpServer front end (SetProtocolName, SetPrefix,
+                                 SetRepoURL, page toggles, CORS ...): handleDescribe reads only
+                                 h.server, so none of them is an input of describe *)
 
 Definition is_mutator (o : op) : bool :=
   match o with OReg _ | OSetService _ | OSetServerID _ | OSetPV _ => true | _ => false end.
@@ -340,12 +343,14 @@ Inductive oobs :=
 | BDesc (status : Z)
         (r : option resp)         (* the response served *)
         (fresh : option resp)     (* describe of a brand-new server given only the mutators so far *)
+        (other : option resp)     (* the SAME server asked over the other transport right after *)
         (payload : option bytes)  (* byte string the harness hashed *)
         (hash_ok frame_ok decode_ok : bool)
 | BHash (preimage : option bytes). (* payload whose SHA-256 ProtocolHash() returned *)
 
 Definition desc_obs (H : bytes -> bytes) (s : surface) (status : Z) (r : option resp) : oobs :=
-  BDesc status r (build_describe H (fst s) (snd s)) (payload_of s) true true true.
+  BDesc status r (build_describe H (fst s) (snd s)) (build_describe H (fst s) (snd s))
+        (payload_of s) true true true.
 
 Definition hstep (H : bytes -> bytes) (st : hstate) (o : op) : hstate * oobs :=
   let s := h_surface st in
@@ -381,7 +386,8 @@ Definition hstep_memo (H : bytes -> bytes) (st : hstate) (o : op) : hstate * oob
     let st' := h_touch st in
     let s := h_surface st in
     (st', BDesc 200 (memo_resp H (h_once st') (build_describe H (fst s) (snd s)))
-                (build_describe H (fst s) (snd s)) (payload_of s)
+                (build_describe H (fst s) (snd s))
+                (memo_resp H (h_once st') (build_describe H (fst s) (snd s))) (payload_of s)
                 (opt_eqb beqb (h_once st') (payload_of s)) true true)
   else hstep H st o.
 Fixpoint hist_run_memo (H : bytes -> bytes) (st : hstate) (ops : list op) : list oobs :=
@@ -393,11 +399,12 @@ Fixpoint hist_run_memo (H : bytes -> bytes) (st : hstate) (ops : list op) : list
 (* one describe observation against the surface in force when it was served *)
 Definition desc_ok (regs : list regcall) (b : oobs) : bool :=
   match b with
-  | BDesc status (Some p) fresh payload hash_ok frame_ok decode_ok =>
+  | BDesc status (Some p) fresh other payload hash_ok frame_ok decode_ok =>
       rows_ok regs (r_rows p) && hash_ok && frame_ok && decode_ok
       && opt_eqb beqb payload (Some (ref_payload (meta_get c09_k_protocol_name (r_meta p)) (r_rows p)))
       && Z.eqb status 200
       && opt_eqb resp_eqb fresh (Some p)       (* digest included: = a fresh server with this surface *)
+      && opt_eqb resp_eqb other (Some p)       (* pipe and HTTP of the same server agree, digest included *)
   | _ => false
   end.
 
@@ -417,7 +424,9 @@ Record input := {
   i_regs : list regcall;      (* first server, registration order *)
   i_regs2 : list regcall;     (* second server, same cfg *)
   i_sub : bool;               (* also served from a fresh OS process *)
-  i_hist : list op }.         (* a history run on one further server, starting from NewServer() *)
+  i_hist : list op;           (* a history run on one further server, starting from NewServer() *)
+  i_http : list (bytes * bytes) }.   (* HttpServer setters applied before the HTTP describe of the
+                                        first server; not an input of the model: see OHttpSet *)
 
 Record obs := {
   o_pipe : option resp;            (* Server.Serve on buffers *)
@@ -458,8 +467,8 @@ Definition oresp_eqb (a b : option resp) : bool :=
 Definition oobs_eqb (a b : oobs) : bool :=
   match a, b with
   | BNone, BNone => true
-  | BDesc s r f p h1 h2 h3, BDesc s' r' f' p' h1' h2' h3' =>
-      Z.eqb s s' && oresp_eqb r r' && oresp_eqb f f' && opt_eqb beqb p p'
+  | BDesc s r f x p h1 h2 h3, BDesc s' r' f' x' p' h1' h2' h3' =>
+      Z.eqb s s' && oresp_eqb r r' && oresp_eqb f f' && oresp_eqb x x' && opt_eqb beqb p p'
       && Bool.eqb h1 h1' && Bool.eqb h2 h2' && Bool.eqb h3 h3'
   | BHash p, BHash p' => opt_eqb beqb p p'
   | _, _ => false
